@@ -578,7 +578,9 @@ func runL1Mixed(c *driver.Ctx, base *int64) {
 		core := &capCore{}
 		var ml *memorylimiter.MemoryLimiter
 		var err error
-		if pv, stack := driver.Catch(func() { ml, err = memorylimiter.NewMemoryLimiter(lc.config(time.Hour, time.Hour, time.Hour), zap.New(core)) }); pv != nil {
+		if pv, stack := driver.Catch(func() {
+			ml, err = memorylimiter.NewMemoryLimiter(lc.config(time.Hour, time.Hour, time.Hour), zap.New(core))
+		}); pv != nil {
 			c.Violation("panic", fmt.Sprintf("NewMemoryLimiter panicked: %v", pv), map[string]any{"config": lc, "stack": stack}, "site", driver.PanicSite(stack))
 			continue
 		}
